@@ -147,6 +147,9 @@ class Normalizer:
             return self.rat(t[1]) - self.rat(t[2])
         if h == "*":
             return self.rat(t[1]) * self.rat(t[2])
+        if h == "/" and isinstance(t[2], tuple) and t[2][0] == "c" and t[2][1] == "int" and not (isinstance(t[1], tuple) and t[1][0] == "c"):
+            # integer division truncates: it is not the field operation (count / 2 * 2 is not count)
+            return Rat(Poly.var(("idiv", self.key(t[1]), t[2][2])))
         if h == "/":
             d = self.rat(t[2])
             if d.n.is_zero():
